@@ -89,6 +89,11 @@ def process_twin(rng, rel, kinds):
         other = c.to_molar(sc["mix"]) if sc["basis"] == "weight" else c.to_weight(sc["mix"])
         sb["x0"], sb["basis"] = other.p, other.type
         pb = perv
+        if sc["kind"].startswith("ideal") and rng.random() < 0.3:
+            # the mole-fraction side hands over a Conditions object that a model of another mixture has already used
+            om = gen.some_mixture(rng, p_builtin=0.6)
+            po = pv.Pervaporation(membrane=rp.make_membrane(rng, om), mixture=om)
+            (sc if sc["basis"] == "molar" else sb)["preuse"] = po
     ra, rb = rp.run_process(perv, sc), rp.run_process(pb, sb)
     tr = [{"ev": "TwinStart", "level": "process", "rel": rel, "kfac": F(k), "kind": sc["kind"], "mode": sc["mode"],
            "model": sc["model"], "probe": False, "N": sc["N"], "hasProg": sc["prog"] is not None, "mixname": sc["mix"].name, "kpow2": kpow2,
@@ -119,7 +124,7 @@ def attempt(fn):
 
 
 def solver_args(rng, mix):
-    T = rng.uniform(280.0, 390.0)
+    T = gen.edge_temperature(rng)
     mode = rng.choice(["vac", "temp", "press"])
     return {"T": T, "mode": mode, "Tperm": rng.uniform(200.0, T - 25.0) if mode == "temp" else None,
             "pperm": rng.uniform(0.0, 3.0) if mode == "press" else None,
